@@ -1977,8 +1977,11 @@ def correspondence(ctx):
               "wireOf; (b) seeded twin runs: sequences of <= 25 operations (attribute get/set/del, method calls with "
               "positional/keyword arguments, binary / reflected / in-place / unary operators, six comparisons, indexing and "
               "slicing incl. extended slices, plain / partial / buffered iteration over chunk x max_chunk x factor grids, "
-              "len/str/repr/hash/bool/dir/format, isinstance/__class__, with-blocks) over list, dict, set, bytearray, deque, "
-              "generator (some raising), io.BytesIO and a user class, under classic / public / default configurations; "
+              "len/str/repr/hash/bool/dir/format, conversions, copy/pickle, isinstance/__class__, with-blocks) over 18 target "
+              "kinds: list, dict, set, bytearray, deque, generator (some raising), io.BytesIO, user classes (Vec, Pairs with "
+              "exposed_ namesakes, Counting with failing reads, four same-named Shape classes, Hooked with delegating "
+              "_rpyc_*attr hooks) under classic / public / default configurations, and an auto-vivifying namespace under "
+              "classic without the exposed_ prefix; plus fixed deterministic cases; "
               "operands only immutable values or objects created on the target's side. Model comparisons: request frames, "
               "policy decisions (checkAttr), buffiter outcomes. Non-trivial: a sequence with at least one forwarded "
               "operation; distinct = (kind, configuration, multiset of step labels x outcome kinds).")
@@ -2322,9 +2325,26 @@ def _known_probes():
     out = [(KNOWN_TYPE_METHODS, differs, text)]
     steps, problems = policy_probe_case("public")
     hit = [p_ for p_ in problems if p_[3] == KNOWN_POLICY_PROBE]
-    out.append((KNOWN_POLICY_PROBE, bool(hit),
-                "a permitted attribute `q` that has an `exposed_q` twin is evaluated once by _check_attr's hasattr(obj, 'q') probe "
-                "and once by the access: " + (hit[0][2] if hit else "not reproduced")))
+    # the same probes on a target with a dynamic __getattr__: while the `exposed_` prefix is on (classic included), every
+    # access through a proxy also looks `exposed_<name>` up on the target - an auto-vivifying namespace grows a stray node
+    sess = Session("classic")
+    try:
+        far, twin = Tree(), Tree()
+        p = sess.lend(far)
+        outcome(lambda: p.alpha)
+        outcome(lambda: twin.alpha)
+        stray = sorted(set(vars(far)) - set(vars(twin)))
+    except Exception:  # noqa
+        stray = None
+    finally:
+        sess.close()
+    out.append((KNOWN_POLICY_PROBE, bool(hit) or bool(stray),
+                "the policy's hasattr probes evaluate the target's attribute machinery: a permitted attribute `q` that has an "
+                "`exposed_q` twin is evaluated once by _check_attr's hasattr(obj, 'q') probe and once by the access: "
+                + (hit[0][2] if hit else "not reproduced")
+                + "; a target with a dynamic __getattr__ sees a lookup of `exposed_<name>` on every access while the prefix is on: "
+                + ("after `proxy.alpha` an auto-vivifying namespace holds %r, after `twin.alpha` only ['alpha']" % (sorted(vars(far)),)
+                   if stray else "not reproduced")))
     return out
 
 
